@@ -524,6 +524,20 @@ def gen_timed(thorough):
                 for t in ((T,) if not thorough else (T, 60, 250)):
                     out.append(dict(id="%s-unanswered-%s-%s-T%d" % (silent, "keepalives" if ka else "silence", "+".join(early) or "nocallers", t),
                                     timeout_ms=t, silent_on=silent, keepalive=ka, early=early, budget_ms=max(1500, 10 * t)))
+    # the reader STALLS (goes quiet without hanging up): nothing at all / the first k bytes of its first message (inside the header, the
+    # whole header, header + part of the payload, all but the last byte) — and the same inside a negotiation reply. A client built
+    # WithTimeout must give up: Connect fails within timeout + slack, nothing written (first message) / nothing but negotiation frames,
+    # callers fail. (Without a timeout the client legitimately waits: not judged.)
+    T2 = 300
+    first_cuts = (0, 1, 5, 9, 10, 11, 20, 31) if not thorough else tuple(range(0, 32))
+    for k in first_cuts:
+        for early in (["pre"], ["pre", "gate"]) if (thorough or k % 2) else (["pre", "gate"],):
+            out.append(dict(id="first-message-stalls-after-%d-bytes-%s-T%d" % (k, "+".join(early), T2), timeout_ms=T2, silent_on="first",
+                            keepalive=False, early=early, first_cut=k, budget_ms=T2 + 1200))
+    for silent, full in (("gsv", 20), ("spv", 18)):
+        for k in ((1, 9, 10, 11, full - 1) if not thorough else tuple(range(1, full))):
+            out.append(dict(id="%s-reply-stalls-after-%d-bytes-T%d" % (silent, k, T2), timeout_ms=T2, silent_on=silent, keepalive=False,
+                            early=["pre", "gate", "neg"], reply_cut=k, budget_ms=T2 + 1200))
     for ka in (True, False):      # control: everything answered (judged only for the order of frames)
         out.append(dict(id="answered-%s" % ("keepalives" if ka else "silence"), timeout_ms=250, silent_on="none", keepalive=ka,
                         early=["pre", "gate", "neg"], budget_ms=400))
@@ -575,7 +589,11 @@ def judge_timed(rq, o):
             elif seen_caller and f["typ"] in (cc.T_GSV, cc.T_SPV):
                 bad.append(("negotiation-frame-after-request", "negotiation frame typ %d follows a caller's request" % f["typ"]))
         return bad
+    if rq["silent_on"] == "first":
+        return judge_first_stall(rq, o, frames, bad)
     msg = {"gsv": "GetSupportedVersion", "spv": "SetProtocolVersion"}[rq["silent_on"]]
+    if rq.get("reply_cut") is not None:
+        msg += " (its reply stalls after %d bytes)" % rq["reply_cut"]
     how = "with keep-alives keeping the read deadline alive" if rq["keepalive"] else "reader silent"
     if o.get("connect") in ("blocked", "nil") or (o.get("ready") and not o.get("closed")):
         bad.append(("setup-succeeds-though-%s-unanswered" % rq["silent_on"],
@@ -602,3 +620,23 @@ def lenient_class(script, go):
     if proceeded:
         return dict(good=True if script["lenient"]["base_good"] else False, cls="overlong-padded-parameter-read-as-its-base")
     return dict(good=False, cls="overlong-padded-parameter-rejected")
+
+
+def judge_first_stall(rq, o, frames, bad):
+    """the reader accepted the connection and sent nothing / only the first k bytes of its first message, then went quiet"""
+    k = rq["first_cut"]
+    what = "sent nothing" if k == 0 else "sent the first %d of 32 bytes of its first message (%s) and stalled" % (
+        k, "inside the header" if k < 10 else "the header only" if k == 10 else "header and part of the payload")
+    if o.get("connect") in ("blocked", "nil"):
+        bad.append(("setup-does-not-fail-though-first-message-stalls",
+                    "client WithTimeout(%d ms), reader %s without hanging up: Connect %s after %s ms (ready=%s closed=%s)" % (
+                        rq["timeout_ms"], what, o.get("connect"), o.get("connect_ms"), o.get("ready"), o.get("closed"))))
+    if frames:
+        bad.append(("write-before-successful-connection-event", "reader %s, yet the peer received frames of types %s" % (what, [f["typ"] for f in frames][:8])))
+    for name, r in sorted((o.get("callers") or {}).items()):
+        if r in ("ok", "sent"):
+            bad.append(("caller-succeeds-after-failed-setup", "caller '%s' returned %s though the reader %s" % (name, r, what)))
+        elif r == "blocked":
+            bad.append(("caller-blocked-after-failed-setup", "caller '%s' is still blocked %d ms after the reader %s (client timeout %d ms)" % (
+                name, rq["budget_ms"], what, rq["timeout_ms"])))
+    return bad
